@@ -320,6 +320,83 @@ pub fn check_bulk(c: &BulkCase) -> CheckResult {
 }
 
 // ---------------------------------------------------------------------------------------
+// C02: the same oracles on other element types (i128, BigInt, i16), owned arrays
+
+fn select_wide_t<T: PEl>(c: &SelCase) -> CheckResult {
+    let n = c.values.len();
+    if c.index >= n {
+        return Ok(Info::discarded());
+    }
+    let values: Vec<T> = c.values.iter().map(|&v| T::from_i(v)).collect();
+    let mut a = ndarray::Array1::from(values.clone());
+    c.pivots.install();
+    let res = catch(|| a.get_from_sorted_mut(c.index));
+    Pivots::uninstall();
+    let got = match res {
+        Ok(g) => g,
+        Err(p) => fail!("panic", "get_from_sorted_mut({}) on {:?} panicked: {}", c.index, values, p),
+    };
+    let mut sorted = values.clone();
+    sorted.sort();
+    ensure!(got == sorted[c.index], "wrong-value", "get_from_sorted_mut({}) on {:?} returned {}, a full sort gives {} (pivots {:?})", c.index, values, got, sorted[c.index], c.pivots);
+    for (j, x) in a.iter().enumerate() {
+        if j < c.index {
+            ensure!(*x <= got, "postcondition", "after selecting index {}: element {} at position {} is > returned {}", c.index, x, j, got);
+        } else {
+            ensure!(*x >= got, "postcondition", "after selecting index {}: element {} at position {} is < returned {}", c.index, x, j, got);
+        }
+    }
+    let mut after: Vec<T> = a.iter().cloned().collect();
+    after.sort();
+    ensure!(after == sorted, "multiset", "selection changed the multiset of {:?}", values);
+    Ok(Info::new(n >= 2).class("elem:non-i64"))
+}
+
+pub fn check_select_wide(c: &SelCase) -> CheckResult {
+    match c.values.len() % 3 {
+        0 => select_wide_t::<i128>(c),
+        1 => select_wide_t::<num_bigint::BigInt>(c),
+        _ => select_wide_t::<i16>(c),
+    }
+}
+
+fn bulk_wide_t<T: PEl>(c: &BulkCase) -> CheckResult {
+    let n = c.values.len();
+    if c.indexes.iter().any(|&i| i >= n) {
+        return Ok(Info::discarded());
+    }
+    let values: Vec<T> = c.values.iter().map(|&v| T::from_i(v)).collect();
+    let mut a = ndarray::Array1::from(values.clone());
+    c.pivots.install();
+    let idx = arr1(&c.indexes);
+    let res = catch(|| a.get_many_from_sorted_mut(&idx));
+    Pivots::uninstall();
+    let map = match res {
+        Ok(m) => m,
+        Err(p) => fail!("panic", "get_many_from_sorted_mut({:?}) on {:?} panicked: {}", c.indexes, values, p),
+    };
+    let mut sorted = values.clone();
+    sorted.sort();
+    let mut want: Vec<usize> = c.indexes.clone();
+    want.sort_unstable();
+    want.dedup();
+    let keys: Vec<usize> = map.keys().cloned().collect();
+    ensure!(keys == want, "wrong-value", "bulk selection of {:?}: keys {:?}, expected {:?}", c.indexes, keys, want);
+    for (&k, v) in map.iter() {
+        ensure!(*v == sorted[k], "wrong-value", "bulk selection of {:?} on {:?}: entry for index {} is {}, a full sort gives {}", c.indexes, values, k, v, sorted[k]);
+    }
+    Ok(Info::new(n >= 2 && !c.indexes.is_empty()).class("elem:non-i64"))
+}
+
+pub fn check_bulk_wide(c: &BulkCase) -> CheckResult {
+    match c.values.len() % 3 {
+        0 => bulk_wide_t::<i128>(c),
+        1 => bulk_wide_t::<num_bigint::BigInt>(c),
+        _ => bulk_wide_t::<i16>(c),
+    }
+}
+
+// ---------------------------------------------------------------------------------------
 // C16: Bins / Grid index
 
 pub fn check_bins_index(c: &BinsIndexCase) -> CheckResult {
@@ -733,6 +810,8 @@ pub fn run_c02(ctx: &Ctx) {
     enum_bulk(ctx, 1, t.pick(6, 6), false);
     ctx.run_proptest("select", t.pick(20_000, 600_000), sel_strategy(t.pick(80, 300), 0), &check_select);
     ctx.run_proptest("bulk", t.pick(20_000, 600_000), bulk_strategy(t.pick(80, 300), 0), &check_bulk);
+    ctx.run_proptest("select-wide", t.pick(8_000, 200_000), sel_strategy(t.pick(60, 200), 0), &check_select_wide);
+    ctx.run_proptest("bulk-wide", t.pick(8_000, 200_000), bulk_strategy(t.pick(60, 200), 0), &check_bulk_wide);
 }
 
 pub fn run_c16(ctx: &Ctx) {
@@ -771,6 +850,8 @@ pub fn replayers() -> Vec<(&'static str, ReplayFn)> {
         ("select", |v| replay_with::<SelCase>(v, &check_select)),
         ("bulk", |v| replay_with::<BulkCase>(v, &check_bulk)),
         ("bins-index", |v| replay_with::<BinsIndexCase>(v, &check_bins_index)),
+        ("select-wide", |v| replay_with::<SelCase>(v, &check_select_wide)),
+        ("bulk-wide", |v| replay_with::<BulkCase>(v, &check_bulk_wide)),
     ]
 }
 
